@@ -8,8 +8,8 @@ package harness
 // the meaning of every generated text is decided by the reference model.
 
 import (
-	"math/big"
 	"encoding/json"
+	"math/big"
 	"strconv"
 	"strings"
 
@@ -21,7 +21,7 @@ import (
 // ---------------------------------------------------------------------------
 // Documents (G-doc)
 
-var docKeys = []string{"a", "b", "c", "d", "", "é", "k-1", "a", "A", "B", "É", "a "}
+var docKeys = []string{"a", "b", "c", "d", "", "é", "k-1", "a", "A", "B", "É", "a ", "in", "let", "null", "true", "not", "length"}
 var docStrings = []string{"", "a", "b", "ab", "é", "𝒳y", "10", "1e2", "x y", "'", "\"", "\\", "`", "100%", "%s%d", "a%%b", "<&>", "\u2028", "l'été", "'𝄞", "it's"}
 var docNumbers = []float64{0, 1, -1, 2, 3, 10, 0.5, -2.5, 1e15, 7}
 
@@ -278,7 +278,8 @@ func spellKey(g *exprGen, k string) string {
 	return ref.QuoteJSON(k)
 }
 
-var vocabKeys = []string{"a", "b", "c", "d", "", "é", "k-1", "zz", "A", "É", "a "}
+// (after the first eight: names that are words of other languages, of later JMESPath proposals or of JSON - plain identifiers here)
+var vocabKeys = []string{"a", "b", "c", "d", "", "é", "k-1", "zz", "A", "É", "a ", "in", "let", "null", "true", "not", "length", "and", "as"}
 
 func (g *exprGen) keyFor(cur interface{}) string {
 	if m, ok := cur.(map[string]interface{}); ok && len(m) > 0 && !g.pct(g.f.mismatch, "missKey") {
